@@ -400,7 +400,16 @@ func raceify(t *rapid.T, c *Case) {
 		n = append(n, ops[pos:end]...)
 		c.Clients[ci] = n
 	}
-	if rapid.IntRange(0, 4).Draw(t, "sweep1") == 0 {
+	items := 0
+	for _, ops := range c.Clients {
+		for _, op := range ops {
+			if op.It != nil {
+				items++
+			}
+			items += len(op.Items)
+		}
+	}
+	if items <= 12 && rapid.IntRange(0, 4).Draw(t, "sweep1") == 0 {
 		c.Sched = Sched{Strategy: "sweep1"}
 		return
 	}
